@@ -33,29 +33,39 @@ class PipelineResult:
 
 
 def pipeline(path, lattice, flags):
-    """The real conversion, from the input file to the written text (main.conversion without the clock
-    and the header)."""
-    from MIP import mip
-    from t4_geom_convert.main import parse_lattice
-    from t4_geom_convert.Kernel.FileHandlers.Writer.WriteT4Geometry import convertMCNPGeometry, writeT4Geometry
-    from t4_geom_convert.Kernel.FileHandlers.Writer.WriteT4Composition import writeT4Composition
-    from t4_geom_convert.Kernel.FileHandlers.Writer.WriteT4GeomComp import writeT4GeomComp
-    from t4_geom_convert.Kernel.FileHandlers.Writer.WriteT4BoundCond import writeT4BoundCond
-    args = argparse.Namespace(input=path, cache=False, **{k: flags[k] for k in
-                              ('skip_deduplication', 'always_inline_filling', 'always_inline_filled', 'max_inline_score')})
-    parser = mip.MIP(path, encoding='utf-8')
-    lattice_params = parse_lattice(list(lattice))
-    conv = convertMCNPGeometry(parser, lattice_params, args)
-    dic_surf_mcnp, dic_surface_t4, dic_volumes_t4, mcnp_new_dict, skipped = conv
-    out = io.StringIO()
-    writeT4Geometry(dic_surface_t4, dic_volumes_t4, skipped, out)
-    if not flags.get('skip_compositions'):
-        writeT4Composition(parser, mcnp_new_dict, out)
-    if not flags.get('skip_geomcomp'):
-        writeT4GeomComp(dic_volumes_t4, mcnp_new_dict, out)
-    if not flags.get('skip_boundary_conditions'):
-        writeT4BoundCond(dic_surf_mcnp, out, dic_surface_t4, dic_volumes_t4)
-    return PipelineResult(out.getvalue(), list(skipped), '')
+    """The real conversion through the real entry point: t4_geom_convert.main.parse_args + main.conversion
+    (the wiring of the options and of the writers in main.py is part of what is executed).  The output file is
+    read back; what conversion() prints (clock, note on omitted cells) is captured, the note is parsed."""
+    import contextlib
+    import re as _re
+    from t4_geom_convert import main as _main
+    outpath = path + '.t4'
+    argv = [path, '-o', outpath]
+    for k, opt in (('skip_deduplication', '--skip-deduplication'), ('always_inline_filling', '--always-inline-filling'),
+                   ('always_inline_filled', '--always-inline-filled'), ('skip_compositions', '--skip-compositions'),
+                   ('skip_geomcomp', '--skip-geomcomp'), ('skip_boundary_conditions', '--skip-boundary-conditions')):
+        if flags.get(k):
+            argv.append(opt)
+    for opt in lattice:
+        argv += ['--lattice', opt]
+    args = _main.parse_args(argv)
+    args.max_inline_score = flags['max_inline_score']          # a float, or a symbolic real (C13)
+    buf = io.StringIO()
+    try:
+        with contextlib.redirect_stdout(buf):
+            _main.conversion(args)
+        with open(outpath) as f:
+            text = ''.join(l for l in f if not l.startswith('// TRIPOLI-4 geometry generated') and not l.startswith('// t4_geom_convert '))
+    finally:
+        try:
+            os.remove(outpath)
+        except OSError:
+            pass
+    skipped = []
+    m = _re.search(r'importance is equal to zero:\s*\n\s*\[([^\]]*)\]', buf.getvalue())
+    if m and m.group(1).strip():
+        skipped = [int(x) for x in m.group(1).split(',')]
+    return PipelineResult(text, skipped, buf.getvalue())
 
 
 def explore_deck(deck, flags=None, pre=(), maxpaths=200, timeout_ms=5000):
